@@ -89,6 +89,9 @@ Definition dec_fq (st : Z * bool) (opc : Z) (a : list Z) : Z * bool :=
   if opc =? 1 then fqc_step_fixed st FcEnq
   else if opc =? 3 then fqc_step_fixed st FcClose
   else fqc_step_fixed st (FcRelease (arg 0 a)).
+(* cc interceptor + gcc pacer: per-stream writers *)
+Definition dec_gw (st : gw) (opc : Z) (a : list Z) : gw :=
+  if opc =? 1 then gw_step st (GwBind (arg 0 a)) else gw_step st (GwUnbind (arg 0 a)).
 Definition dec_h (st : hist) (opc : Z) (a : list Z) : hist :=
   if opc =? 1 then h_step true st (HAdd (arg 0 a) (arg 1 a) (argb 2 a) (arg 3 a))
   else if opc =? 2 then h_step true st (HAckTw (arg 0 a) (argb 1 a))
@@ -130,6 +133,7 @@ Definition model_ok (c : c12case) : bool :=
   else if comp =? 12 then run_rc (arg 0 cfg) (false, []) tr
   else if (comp =? 13) || (comp =? 14) then run_cmp dec_fq (fun st => [fst st]) (0, false) tr
   else if comp =? 15 then run_cmp dec_h h_sizes h_init tr
+  else if comp =? 16 then run_cmp dec_gw gw_sizes gw_init tr
   else false.
 
 Definition c12_mismatches (cases : list c12case) : list nat :=
@@ -210,6 +214,10 @@ Definition spec_code (c : c12case) : Z :=
       spec_fold (fun (s : Z) opc a => if opc =? 1 then s + 1 else if opc =? 4 then s - arg 0 a else s)
                 (fun s o => if negb (arg 0 o <=? s) then 1501
                             else bool_code (arg 1 o + arg 2 o <=? arg 0 o) 1505) 0 tr
+    else if comp =? 16 then
+      (* writers <= currently bound streams; 1601 = the excess appears after an Unbind, 1603 = without any *)
+      spec_fold (fun (s : list Z * bool) opc a => (set_upd 1 2 (fst s) opc a, snd s || (opc =? 2)))
+                (fun s o => if arg 0 o <=? zlen (fst s) then 0 else if snd s then 1601 else 1603) ([], false) tr
     else 9999 in
   if negb (bound_code =? 0) then bound_code
   else if negb (comp =? 12) && grows3 (if comp =? 5 then map (firstn 1) (marks tr) else marks tr) then
